@@ -7,7 +7,7 @@
 (***************************************************************************)
 EXTENDS ClientNS, TLC
 
-CONSTANTS MaxClients, STARTS
+CONSTANTS MaxClients, STARTS, MaxClock
 
 VARIABLES S, store
 
@@ -21,9 +21,13 @@ Init == /\ \E n0 \in STARTS : S = InitNS(n0)
 
 Next == \E a \in Actions(S) :
             /\ a.op = "create" => Len(S.cl) < MaxClients
+            /\ S.clock < MaxClock
+            /\ (a.op = "update" /\ Known(S, a.c)) => S.cl[a.c].h <= MaxClock + 1
             /\ LET r == Step(S, a) IN
                /\ S' = r.S
                /\ store' = store \cup { <<Target(S, a), k>> : k \in r.writes \ {L_nextClientSequence} }
+               \* what the property says of each step (of the model)
+               /\ Assert(WritesConfined(S, a, r.writes) /\ SubstituteUntouched(S, a, r.writes), <<"step not confined", a>>)
                /\ Witness(a.op, r.res = "ok")
                /\ Witness("rejected", r.res = "err")
                /\ Witness("TwoDigitId", r.res = "ok" /\ a.op = "create" /\ S.next >= 10 /\ S.next < 100)
@@ -36,8 +40,4 @@ Spec == Init /\ [][Next]_<<S, store>>
 Inv_Ownership == \A w \in store : /\ InNamespace(w[1], w[2])
                                   /\ \A c \in DOMAIN S.cl : S.cl[c].id # w[1] => ~InNamespace(S.cl[c].id, w[2])
 Inv == NamespacesDisjoint(S) /\ Inv_Ownership
-
-\* what the property says of each step
-StepConfined == [][\A a \in Actions(S) : LET r == Step(S, a) IN
-                      WritesConfined(S, a, r.writes) /\ SubstituteUntouched(S, a, r.writes)]_<<S, store>>
 =============================================================================
